@@ -293,7 +293,8 @@ func classify(x *vsched.Exec, check func(*vsched.Exec) *vsched.Violation) *vsche
 	var v *vsched.Violation
 	switch {
 	case x.Foreign != 0:
-		v = &vsched.Violation{Sig: "harness-foreign-goroutine", Msg: fmt.Sprint(x.Foreign)}
+		st, _ := vsched.ForeignStack.Load().(string)
+		v = &vsched.Violation{Sig: "harness-foreign-goroutine", Msg: fmt.Sprintf("%d shim operations from uncontrolled goroutines; first: %s", x.Foreign, st)}
 	case len(x.Panics) > 0:
 		v = &vsched.Violation{Sig: "panic", Msg: x.Panics[0]}
 	case x.Deadlock:
